@@ -642,6 +642,8 @@ pub enum Verdict {
     AcceptIfEq(Value),
     /// rejects with the n-th variant of the library's claim error type (a validator may return any of them)
     RejectWith(u8),
+    /// the caller's own validator panics (a bug in the caller's code, e.g. an unwrap on an unexpected type)
+    Panic,
     /// treats the value as a token of `proto` and parses it at `layer` under `key` from inside the validator
     /// (a rule for a claim that carries an embedded token); accepts iff that parse succeeds. A panic of the
     /// nested parse is re-raised, as it would reach the caller of the outer parse.
@@ -656,6 +658,8 @@ pub struct ValidatorCall {
 }
 
 pub const SLOTS: usize = 12;
+/// message of the panic raised by a validator with `Verdict::Panic` (the caller's bug, not the library's)
+pub const USER_VALIDATOR_PANIC: &str = "the caller's own validator panicked";
 thread_local! {
     static VERDICTS: RefCell<Vec<Verdict>> = RefCell::new(vec![Verdict::Accept; SLOTS]);
     static CALLS: RefCell<Vec<ValidatorCall>> = RefCell::new(Vec::new());
@@ -679,6 +683,7 @@ fn validator_body(slot: usize, key: &str, value: &Value) -> Result<(), PasetoCla
         Verdict::Reject => false,
         Verdict::AcceptIfEq(v) => &v == value,
         Verdict::RejectWith(_) => false,
+        Verdict::Panic => panic!("{}", USER_VALIDATOR_PANIC),
         Verdict::ParseEmbedded { proto, layer, key: k } => match present(proto, layer, &k, value.as_str().unwrap_or(""), None, None).0 {
             Out::Ok(_) => true,
             Out::Err(_) => false,
@@ -816,6 +821,8 @@ pub enum BOp {
     Build,
     /// public protocols: build with key material the signer must refuse (then the history goes on)
     BuildBadKey,
+    /// move the frozen clock (hook H2) to this instant (ns since the epoch, as text) before the next call
+    Clock(String),
 }
 
 #[derive(Clone, Debug, PartialEq, Serialize, Deserialize)]
@@ -842,6 +849,8 @@ pub enum POp {
     Parse(usize, usize),
     /// move the frozen clock (hook H2) to this instant (ns since the epoch, as text) before the next call
     Clock(String),
+    /// change what the validator in this slot does from now on (the registered closure stays the same)
+    SetVerdict(usize, Verdict),
 }
 
 #[derive(Clone, Debug, PartialEq, Serialize, Deserialize)]
@@ -898,10 +907,12 @@ pub struct ReFooter<'a> {
     pub other: Proto,
     pub other_key: &'a [u8],
     pub other_text: &'a str,
+    /// the expected footer of the inner presentation
+    pub other_footer: Option<&'a str>,
 }
 impl<'a> From<ReFooter<'a>> for Option<Footer<'a>> {
     fn from(r: ReFooter<'a>) -> Self {
-        let _ = core_present(r.other, r.other_key, r.other_text, None, None);
+        let _ = core_present(r.other, r.other_key, r.other_text, r.other_footer, None);
         r.footer.map(Footer::from)
     }
 }
@@ -1013,6 +1024,11 @@ macro_rules! history_fns {
                         Ok(Err(e)) => Out::Err(class_builder(&e)),
                         Err(p) => Out::Panic(p),
                     }),
+                    BOp::Clock(ns) => {
+                        let t: i128 = ns.parse().unwrap_or(0);
+                        set_clock(time::OffsetDateTime::from_unix_timestamp_nanos(t).ok());
+                        BEvent::Applied
+                    }
                     BOp::BuildBadKey => match bad {
                         None => BEvent::Unsupported,
                         Some(bk) => BEvent::Built(match guard(|| b.$gen_finish(bk)) {
@@ -1061,6 +1077,11 @@ macro_rules! history_fns {
                         Ok(Err(e)) => Out::Err(class_builder(&e)),
                         Err(p) => Out::Panic(p),
                     }),
+                    BOp::Clock(ns) => {
+                        let t: i128 = ns.parse().unwrap_or(0);
+                        set_clock(time::OffsetDateTime::from_unix_timestamp_nanos(t).ok());
+                        BEvent::Applied
+                    }
                     BOp::BuildBadKey => match bad {
                         None => BEvent::Unsupported,
                         Some(bk) => BEvent::Built(match guard(|| b.build(bk)) {
@@ -1114,6 +1135,10 @@ macro_rules! parser_history {
                     POp::Clock(ns) => {
                         let t: i128 = ns.parse().unwrap_or(0);
                         set_clock(time::OffsetDateTime::from_unix_timestamp_nanos(t).ok());
+                        PEvent::Applied
+                    }
+                    POp::SetVerdict(slot, v) => {
+                        set_verdict(*slot, v.clone());
                         PEvent::Applied
                     }
                     POp::Parse(ti, ki) => {
